@@ -40,7 +40,7 @@ void build_tables(void)
 __CPROVER_requires(0 <= g_nc && g_nc <= CAP && 0 <= g_nsub && g_nsub <= CAP && 0 <= g_nic && g_nic <= CAP && g_hi == 0 && g_ihi == 0 && g_pos_i == NONE && g_pos_j == NONE && g_ipos_i == NONE && g_ipos_j == NONE && g_composite_set == 0)
 __CPROVER_requires(0 <= g_i && g_i < g_j)
 __CPROVER_assigns(g_hi, g_pos_i, g_pos_j, g_composite_set, g_ihi, g_ipos_i, g_ipos_j)
-__CPROVER_ensures((HAS_TRANSITIONS && g_j < g_nc && g_c_state[g_i] == g_s && g_c_event[g_i] == g_e && g_c_state[g_j] == g_s && g_c_event[g_j] == g_e) ==> (g_pos_i != NONE && g_pos_j != NONE && g_pos_i < g_pos_j))   /*@ob C01.cells-of-a-chain-keep-the-order-of-the-transition-list */
+__CPROVER_ensures((HAS_TRANSITIONS && g_j < g_nc && g_c_state[g_i] == g_s && g_c_event[g_i] == g_e && g_c_state[g_j] == g_s && g_c_event[g_j] == g_e) ==> (g_pos_i != NONE && g_pos_j != NONE && g_pos_i < g_pos_j))   /*@ob C01,C13.cells-of-a-chain-keep-the-order-of-the-transition-list */
 __CPROVER_ensures((HAS_INTERNAL && g_j < g_nic && g_ic_event[g_i] == g_e && g_ic_event[g_j] == g_e) ==> (g_ipos_i != NONE && g_ipos_j != NONE && g_ipos_i < g_ipos_j))                                                /*@ob C01.internal-cells-keep-the-order-of-the-internal-transition-list */
 __CPROVER_ensures((0 <= g_w && g_w < g_nsub) ==> g_composite_set == 1)                                                  /*@ob C07.every-composite-state-gets-its-forwarding-call */
 ;
